@@ -4,10 +4,11 @@
 //!  (a) round trip + writer determinism over bounded-exhaustive value generators;
 //!  (b) accepted ⇒ canonical over EVERY byte string of length ≤ 2 (quick) / ≤ 3 (thorough);
 //!  (c) every single-position mutation of every encoding from (a), same oracle;
-//!  (d) every NaN-class float header (all f16 NaNs; f32/f64 sign × mantissa alphabet);
+//!  (d) every NaN-class float header (all f16 NaNs; f32/f64 sign × mantissa alphabet) and every
+//!      boundary float / integer / length at every argument width;
 //!  (e) structure-aware alternative spellings of every DTO encoding.
 
-use codecs::classify::{classify, dto_shape_mutants, nan_inputs};
+use codecs::classify::{classify, dto_shape_mutants, nan_inputs, width_inputs};
 use codecs::mutate::for_each_mutant;
 use codecs::{Codec, Decoded};
 use mc::{hex, json, unhex, Level, Report};
@@ -402,6 +403,22 @@ fn phase_d(r: &Report, table: &[Codec]) {
     let (acc, rej) = flush(r, table, l, "d");
     r.guard("d:nan_inputs_exercised", acc.get(&ci).copied().unwrap_or(0) + rej.get(&ci).copied().unwrap_or(0) == inputs.len() as u64);
     r.guard("d:f32_f64_nan_headers_rejected", rej.get(&ci).copied().unwrap_or(0) > 0);
+
+    // every spelling width of boundary floats / integers / lengths → both CBOR value decoders
+    let inputs = width_inputs();
+    let mut l = Local::default();
+    let cis: Vec<usize> = table.iter().enumerate().filter(|(_, c)| c.name == "abi-cbor" || c.name == "edict-cbor").map(|(i, _)| i).collect();
+    for (_label, b) in &inputs {
+        for &ci in &cis {
+            judge(table, ci, b, "d2", None, &mut l);
+        }
+    }
+    r.counter("d2:width_spelling_inputs", inputs.len() as u64);
+    let (acc, rej) = flush(r, table, l, "d2");
+    for &ci in &cis {
+        r.guard(&format!("d2:minimal_spellings_accepted:{}", table[ci].name), acc.get(&ci).copied().unwrap_or(0) > 20);
+        r.guard(&format!("d2:wider_spellings_rejected:{}", table[ci].name), rej.get(&ci).copied().unwrap_or(0) > 100);
+    }
 }
 
 fn phase_e(r: &Report, table: &[Codec], encs: &[Enc]) {
@@ -473,7 +490,7 @@ fn main() {
         r.finish();
     }
     r.rule(
-        "per codec of the shared table: (a) every value of a bounded-exhaustive generator (boundary integers 0,23,24,255,256,65535,65536,2^32±1,2^53,2^63±1,2^64−1 and negatives; one float per class per width incl. NaN/±inf/±0/subnormal/integral; empty/1/2-element and depth≤3 arrays/maps; strings of length 0,1,2,23,24,255,256(,65535,65536); maps in every insertion order) is encoded twice, decoded, compared and re-encoded; (b) EVERY byte string of length ≤2 (quick) / ≤3 (thorough) is fed to EVERY decoder, accepted ⇒ encode(decode(b)) == b; (c) every single-position mutant (8 bit flips, ±1, 00, FF, delete, duplicate) of every encoding of (a) within an 8 KiB window, same oracle plus 'same value ⇒ same bytes'; (d) every f16 NaN and sign×mantissa-alphabet f32/f64 NaNs (bare, in an array, as a map value); (e) structure-aware alternative spellings of every DTO encoding. distinct_nontrivial = distinct (codec, byte string) pairs that a decoder ACCEPTED (the oracle only bites on accepted inputs).",
+        "per codec of the shared table: (a) every value of a bounded-exhaustive generator (boundary integers 0,23,24,255,256,65535,65536,2^32±1,2^53,2^63±1,2^64−1 and negatives; one float per class per width incl. NaN/±inf/±0/subnormal/integral; empty/1/2-element and depth≤3 arrays/maps; strings of length 0,1,2,23,24,255,256(,65535,65536); maps in every insertion order) is encoded twice, decoded, compared and re-encoded; (b) EVERY byte string of length ≤2 (quick) / ≤3 (thorough) is fed to EVERY decoder, accepted ⇒ encode(decode(b)) == b; (c) every single-position mutant (8 bit flips, ±1, 00, FF, delete, duplicate) of every encoding of (a) within an 8 KiB window, same oracle plus 'same value ⇒ same bytes'; (d) every f16 NaN and sign×mantissa-alphabet f32/f64 NaNs, and every boundary float / integer / length spelled at every width that can carry it (bare, in an array, as a map value); (e) structure-aware alternative spellings of every DTO encoding. distinct_nontrivial = distinct (codec, byte string) pairs that a decoder ACCEPTED (the oracle only bites on accepted inputs).",
     );
     r.assume("value equality is equality of the Debug rendering of the decoded value (all NaNs are one value); the real encoder applied to the decoded value is the canonical form (EINGR001: the v2 writer's bytes under the v1 magic, the gate head_inbox.rs itself defines)");
     r.assume("ABI value domain = docs/spec/js-cbor-mapping.md: integral floats are ints, integers are i64 ∪ u64; values outside it are counted as encoder_accepts_outside_domain, never as violations");
